@@ -798,9 +798,53 @@ pub fn run_chunks<H: ConnectionHandler>(svc: &H, chunks: &[&[u8]]) -> MemRun {
             }
         }
     }
+    // an upgraded connection with unprocessed bytes left: a real caller calls handle() again
+    // (the bytes belong to the interface's upgraded handler)
+    if run.err.is_none() && iface.is_some() && !tail.is_empty() {
+        let buf = std::mem::take(&mut tail);
+        let mut reader: &[u8] = &buf[..];
+        let res = {
+            let mut w = CountingWriter { out: &mut run.out };
+            let iface_in = iface.clone();
+            std::panic::catch_unwind(std::panic::AssertUnwindSafe(|| {
+                svc.handle(&mut reader, &mut w, iface_in)
+            }))
+        };
+        run.calls += 1;
+        run.out_marks.push(run.out.len());
+        match res {
+            Err(_) => {
+                run.panicked = Some("panic in upgraded drain".into());
+                run.err = Some("panic".into());
+            }
+            Ok(Err(e)) => {
+                run.err = Some(format!("{:?}", e.kind()));
+                run.err_chunk = Some(chunks.len());
+            }
+            Ok(Ok((t, i))) => {
+                tail = t;
+                tail.extend_from_slice(reader);
+                iface = i;
+            }
+        }
+    }
     run.tail = tail;
     run.iface = iface;
     run
+}
+
+/// `Arc`-shared handler so that one service instance can serve listen() and handle() alike.
+pub struct Shared<H>(pub std::sync::Arc<H>);
+
+impl<H: ConnectionHandler> ConnectionHandler for Shared<H> {
+    fn handle(
+        &self,
+        bufreader: &mut dyn std::io::BufRead,
+        writer: &mut dyn Write,
+        upgraded_iface: Option<String>,
+    ) -> varlink::Result<(Vec<u8>, Option<String>)> {
+        self.0.handle(bufreader, writer, upgraded_iface)
+    }
 }
 
 /// Encoded request stream with message boundaries.
